@@ -108,23 +108,34 @@ def run(ctx, report):
     report.covered(pfn)
     pinit = idx.get_function(GEOM, "Padding.__init__")
     order = pinit.params[1:]
+    # the classmethod is folded (constant evaluation of its source) on 1..5 distinguishable
+    # tokens, Size.from_string standing for the identity on tokens
+    from ..core.constfold import Inst, FoldRaise
+    sfs = idx.get_function(GEOM, "Size.from_string")
+    folder.stubs = {sfs.key: (lambda tok: tok)}
     found = {}
-    for n in walk_no_nested(pfn.node):
-        if isinstance(n, ast.If):
-            k = _len_eq_const(n.test)
-            if k is None:
+    try:
+        for k in (1, 2, 3, 4, 5):
+            toks = [f"t{i}" for i in range(k)]
+            try:
+                v = folder.call_function(pfn, [" ".join(toks)])
+            except FoldRaise:
+                found[k] = "raises"
                 continue
-            for st in n.body:
-                if isinstance(st, ast.Return) and isinstance(st.value, ast.Call) \
-                        and call_name(st.value) in ("cls", "Padding"):
-                    call = st.value
-                    m = {}
-                    for i, a in enumerate(call.args):
-                        if i < len(order):
-                            m[order[i]] = _const_index(a)
-                    for kw in call.keywords:
-                        m[kw.arg] = _const_index(kw.value)
-                    found[k] = m
+            except AnalysisError as e:
+                raise AnalysisError(f"Padding.from_xml_attribute cannot be folded: {e}")
+            if not isinstance(v, Inst) or v.cls.name != "Padding":
+                raise AnalysisError(f"Padding.from_xml_attribute folds to {v!r}")
+            m = {}
+            for i, a_ in enumerate(v.args):
+                m[order[i]] = toks.index(a_) if a_ in toks else None
+            for kname, a_ in v.kwargs.items():
+                m[kname] = toks.index(a_) if a_ in toks else None
+            found[k] = m
+    finally:
+        folder.stubs = {}
+    report.check(found.get(5) == "raises", "R-TABLE-REF", pfn, "a padding with more than four values is rejected",
+                 {"five_values_give": found.get(5)}, "5")
     for k, want in G.PADDING_SHORTHAND.items():
         got = found.get(k)
         report.check(got == want, "R-TABLE-REF", pfn, f"padding shorthand with {k} value(s)",
